@@ -526,13 +526,13 @@ pub mod vx_ids {
                 lemma_isect_extend(r0, s, o, k, j as int, lo, hi, merged, result@);
                 p = hi as int;
             }
-        @after 2 `stmt:call push`
+        @after 1 `stmt:call push`
             proof {
                 assert(result@ == r0.push((lo..hi, merged)));
                 lemma_isect_push(r0, s, o, k, j as int, lo, hi, merged);
                 p = hi as int;
             }
-        @after 4 `stmt:call push`
+        @after 2 `stmt:call push`
             proof {
                 assert(result@ == r0.push((lo..hi, merged)));
                 lemma_isect_push(r0, s, o, k, j as int, lo, hi, merged);
